@@ -4007,3 +4007,11 @@ def _np_ones2(I, shape, dtype=None, **kw):
             tbl_col(f(i), j) == 1), patterns=[tbl_col(f(i), j)]))
         return Cell("arr", seq)
     return _np_ones_1d(I, shape, dtype, **kw)
+
+
+@lib("os.remove", "os.unlink")
+def _os_remove(I, p):
+    st = fs_get(I, p)
+    if not I.spec and I.fork(st == FileState.Absent):
+        raise E.RaiseEx("FileNotFoundError", I.cur_line)
+    fs_set(I, p, FileState.Absent)
